@@ -165,6 +165,11 @@ def build_equilibrium(desc, workdir):
     """Returns (eq, options, extra) built the way a user would."""
     fam = desc["family"]
     options = dict(desc.get("options", {}))
+    if desc.get("numpy_options"):
+        # a caller that computed its settings with numpy: same values, numpy.float64 objects
+        import numpy
+
+        options = {k: (numpy.float64(v) if isinstance(v, float) else v) for k, v in options.items()}
     if fam == "G":
         from vf.families import g_inputs
         from hypnotoad.cases import tokamak
